@@ -96,7 +96,7 @@ def measures(text):
 # ---- the recorded classes (known_findings.jsonl).  Every class = a condition on the INPUT TEXT (decidable) plus the
 # symptom plus, for the slow classes, a CONTROL RUN (the same command line without the slow stage must finish):
 F15_OPDEPTH = 100      # F15: verify with simplification, operator nesting >= 100: slower than the watchdog
-F20_NESTDEPTH = 2500   # F20: stack overflow (SIGABRT, "has overflowed its stack"), nesting >= 2500 (smallest aborting input observed: 2738)
+F20_NESTDEPTH = 1000   # F20: stack overflow (SIGABRT, "has overflowed its stack"), nesting >= 1000 (smallest aborting input observed: 1167)
 F21_WIDTH = 40         # F21: verify with simplification / simplify, an atom or quantifier block of >= 40 items
 F22_OPDEPTH = 500      # F22: `parse` with the default `--output debug` ({:#?} of the derived Debug impl), nesting >= 500
 # watchdog of a run whose (input, command) is in a recorded slow class (the default is 10 s): such a run can only show
@@ -119,6 +119,8 @@ def is_debug_parse(cmd_id):
 def slow_class(cmd_id, text, ms=None):
     """the recorded SLOW class the pair (command, input) is in, or None - decided before the run"""
     opdepth, nestdepth, width = ms or measures(text)
+    if cmd_id.endswith("/no-simplify"):
+        return None
     if is_verify(cmd_id) and opdepth >= F15_OPDEPTH:
         return "F15"
     if (is_verify(cmd_id) or is_simplify(cmd_id)) and width >= F21_WIDTH:
@@ -587,6 +589,7 @@ def commands():
         cmds.append((f"analyze/{p}", "lp", lambda f, d, p=p: ["analyze", "--property", p, f]))
     V = ["verify", "--no-proof-search", "--save-problems"]
     cmds.append(("verify/strong/left", "lp", lambda f, d: V + [d + "/out", "--equivalence", "strong", f, d + "/fix.lp"]))
+    cmds.append(("verify/strong/no-simplify", "lp", lambda f, d: V + [d + "/out", "--equivalence", "strong", "--no-simplify", f, d + "/fix.lp"]))
     cmds.append(("verify/strong/right-mu", "lp", lambda f, d: V + [d + "/out", "--equivalence", "strong", "--formula-representation", "mu", d + "/fix.lp", f]))
     cmds.append(("verify/external/spec-program", "lp", lambda f, d: V + [d + "/out", "--equivalence", "external", f, d + "/fix.lp", d + "/fix.ug"]))
     cmds.append(("verify/external/program", "lp", lambda f, d: V + [d + "/out", "--equivalence", "external", "--bypass-tightness", d + "/fix.lp", f, d + "/fix.ug"]))
@@ -705,7 +708,9 @@ def run_one(exe, cid, argv, stdin, text, ms):
             cr = clilib.run([exe] + ctl, stdin=stdin, timeout=10.0)
             if cr.timed_out:
                 cr = clilib.run([exe] + ctl, stdin=stdin, timeout=40.0)
-            ok = not cr.crashed and cr.rc == 0
+            # (the control run of a deep input may itself end in the recorded stack overflow F20: `verify --no-simplify`
+            # aborts from nesting 1167 on, where the run with simplification is still simplifying)
+            ok = (not cr.crashed and cr.rc == 0) or (cr.crashed and not cr.timed_out and classify(cid, text, cr.err, False, cr.rc, ms) == "F20")
         if ok:
             return rr, slow
         slow = None
